@@ -6,6 +6,7 @@ from gen import SeqGen, dyadic
 
 ID = "C06"
 HEAP_SUMMARY = True      # end every program with the reference-level observation (BB.Model.Heap vs id() walk)
+UNIVERSAL_EVERY = 12      # every n-th case is a feature-rich random program (props/universal.py)
 LEAN_MODULE = "BB.Properties.C06"
 QUICK_N = 600
 THOROUGH_N = 6000
